@@ -8,7 +8,7 @@ for log in sys.argv[1:]:
         m = re.match(r"### (\S+)", ln)
         if m:
             cur = m.group(1); continue
-        m = re.match(r"(C\d+) rc=(\d+) (\d+)s violations=(\d+) (.*)", ln)
+        m = re.match(r"(C\d+) rc=(\d+) (\d+)s violations=(\d+)\s*(.*)", ln)
         if m and cur:
             p = "/verif/seeded/%s/meta.json" % cur
             meta = json.load(open(p))
